@@ -76,8 +76,12 @@ def lemma_effect_order(ctx):
         stage_lines = {nm: [e[1] for e in events if e[0] == "stage" and e[2] == nm] for nm in stages}
         first_write = min((e[1] for e in writes), default=None)
         out.append((f"{prog}: the program has a designated write site", [], z3.BoolVal(bool(writes))))
+        missing = [nm for nm in stages if not stage_lines[nm]]
+        if missing:
+            # the stage list of this contract no longer matches the program (renamed / removed stage): stale contract, not a verdict
+            from pyvc.types import Unsupported
+            raise Unsupported(f"effect contract of {prog} is stale: stage call(s) {missing} not found in the function body")
         for nm in stages:
-            out.append((f"{prog}: stage {nm} is still called", [], z3.BoolVal(bool(stage_lines[nm]))))
             out.append((f"{prog}: every call of stage {nm} precedes the first effect on the output path",
                         [], z3.BoolVal(first_write is not None and all(l < first_write for l in stage_lines[nm]))))
         if prog in ("gen_params", "gen_coords"):
